@@ -299,7 +299,7 @@ func (w *txWorker) violation(key, what string, tx *txRec, extra map[string]any) 
 	w.run.mu.Lock()
 	w.run.online++
 	w.run.mu.Unlock()
-	w.run.c.Violation(key, what, wit)
+	report(w.run.c, key, what, wit)
 }
 
 // read performs a read of branch br and checks it against the transaction's expected view (stability, own writes).
@@ -656,14 +656,35 @@ func (w *txWorker) oneTx(idx int) {
 	}
 	res := w.do(tx, q, isQ)
 	tx.EndCall, tx.EndRet = res.call, res.ret
+	// CALL dolt_commit commits the SQL transaction but does not end a BEGIN block of an autocommit session (the session
+	// keeps ignoring @@autocommit until a COMMIT/ROLLBACK statement): leave the block explicitly so that the following
+	// bare statements really are single-statement transactions. The extra COMMIT has nothing to commit.
+	leaveBlock := func() {
+		if tx.End == "dolt_commit" && w.ac {
+			if r2 := w.do(tx, "commit", false); r2.err != nil {
+				w.run.c.Note("commit after dolt_commit failed: " + r2.err.Error())
+				if sqlrig.IsConnErr(r2.err) {
+					w.x.Close()
+					rig.Must(w.connect())
+				}
+			}
+		}
+	}
 	switch {
 	case res.err == nil:
 		tx.Outcome = "committed"
 		if isQ && len(res.rows.Data) > 0 {
 			tx.Hash = res.rows.Data[0][0]
 		}
+		leaveBlock()
 	case sqlrig.IsConnErr(res.err):
 		w.indeterminate(tx, res.err)
+	case tx.End == "dolt_commit" && strings.Contains(res.err.Error(), "nothing to commit"):
+		// doDoltCommit finalizes the SQL transaction (CommitTransaction succeeded) before it reports that there is no
+		// difference to HEAD to make a Dolt commit from: the SQL transaction IS committed, only no Dolt commit exists.
+		tx.Outcome, tx.Err = "committed", res.err.Error()
+		leaveBlock()
+		tx.End = "dolt_commit-nothing-to-commit"
 	default:
 		tx.Outcome, tx.Errno, tx.Err = "failed", sqlrig.Errno(res.err), res.err.Error()
 		// the server has rolled the transaction back; make sure the session is out of it
